@@ -21,6 +21,10 @@ PoolObj(id) ==
      [] id = "bkvec" -> BkObj(2, 2, AllK(2))
      [] id = "chk"   -> ChkObj(2, 2, 1, AllK(2), 1, FALSE)
      [] id = "spn"   -> SpnObj(2, 2, AllK(2), 1)
+     [] id = "uhu"   -> UxuObj("uhu", 2, 2, 2, AllK(2), 1)  \* extension "uHu" vs key "uhu"; from_npz appends bkvec to its list
+     [] id = "uiu"   -> UxuObj("uiu", 2, 2, 2, AllK(2), 1)
+     [] id = "shu"   -> SxuObj("shu", 2, 2, 2, AllK(2), 1)
+     [] id = "siu"   -> SxuObj("siu", 2, 2, 2, AllK(2), 1)
 PoolKey(id) == PoolObj(id).cls
 Entry0(op) == [op |-> op, key |-> "", id |-> "", flag |-> FALSE, err |-> "", exact |-> FALSE, same |-> FALSE]
 
@@ -52,6 +56,12 @@ DoToNpz ==
    /\ disk' = ContToNpz(cont, disk)
    /\ hist' = Append(hist, Entry0("to_npz"))
    /\ UNCHANGED <<cont, loaded, texts>>
+(* to_npz(seedname, files = [key]): only that file is written *)
+DoToNpzOnly(key) ==
+   /\ Room /\ HasFile(cont, key)
+   /\ disk' = [k \in DOMAIN disk \cup {key} |-> IF k = key THEN AsDict(cont.files[key]) ELSE disk[k]]
+   /\ hist' = Append(hist, [Entry0("to_npz") EXCEPT !.key = key])
+   /\ UNCHANGED <<cont, loaded, texts>>
 (* the disk is exactly the image of the container (no file of an earlier save is left) *)
 DiskExact == DOMAIN disk = DOMAIN cont.files /\ \A key \in DOMAIN disk : disk[key] = AsDict(cont.files[key])
 DoFromNpz ==
@@ -68,9 +78,20 @@ DoWrite(key) ==
         /\ texts' = IF r.err = "" THEN (key :> r.lines) @@ texts ELSE texts
         /\ hist' = Append(hist, [Entry0("write") EXCEPT !.key = key, !.err = r.err])
    /\ UNCHANGED <<cont, disk, loaded>>
+(* write(seedname) with files = None: every file of the container, in turn; the classes without a text writer (and the .mmn
+   writer as it is) make the call fail - which files are on disk by then is not modelled *)
+DoWriteAll ==
+   /\ Room /\ DOMAIN cont.files # {}
+   /\ LET keys == DOMAIN cont.files
+           ok == keys \subseteq {"eig", "amn"} /\ \A key \in keys : WriteOf(cont.files[key], <<>>).err = "" IN
+      /\ texts' = IF ok THEN [key \in keys \cup DOMAIN texts |-> IF key \in keys THEN WriteOf(cont.files[key], <<>>).lines ELSE texts[key]]
+                   ELSE texts
+      /\ hist' = Append(hist, [Entry0("write") EXCEPT !.err = IF ok THEN "" ELSE "some exception"])
+   /\ UNCHANGED <<cont, disk, loaded>>
 CNext == (\/ \E id \in POOL : \E o \in BOOLEAN : DoSet(id, o)
           \/ \E key \in {PoolKey(id) : id \in POOL} : \E g \in BOOLEAN : DoUnset(key, g)
-          \/ DoToNpz \/ DoFromNpz
+          \/ DoToNpz \/ DoFromNpz \/ DoWriteAll
+          \/ \E key \in {PoolKey(id) : id \in POOL} : DoToNpzOnly(key)
           \/ \E key \in {"eig", "amn"} : DoWrite(key))
          /\ UNCHANGED fvars
 CSpec == CInit /\ [][CNext]_<<cvars, fvars>>
